@@ -27,7 +27,12 @@ From OIDC Require Import Lib.
 
 Inductive router := RProvider | RLegacy.
 Inductive endpoint := EToken | EIntrospect | ERevoke | EDeviceAuthz.
-Inductive amethod := MBasic | MPost | MPKJWT | MNone.
+Inductive amethod := MBasic | MPost | MPKJWT | MNone
+                   | MOther.   (* Client.AuthMethod() returns a value outside the library's four constants: "" (unset),
+                                  client_secret_jwt, tls_client_auth, an unknown string, a case variant of a constant.
+                                  The client has a stored secret.  As coded every guard compares with the constants
+                                  and falls through to the secret check: such a client is handled like
+                                  client_secret_basic (also OIDC's default when the method is not registered). *)
 Inductive apptype := AWeb | ANative | AUserAgent.
 Inductive grant := GCode | GRefresh | GCC | GBearer | GTE | GDevice | GImplicit | GUnknown | GMissing.
 Inductive seck := SRight | SWrong
@@ -40,7 +45,8 @@ Inductive seck := SRight | SWrong
 Inductive idslot := IdBasic | IdForm
                   | IdAssert.   (* issuer and subject of an otherwise valid client assertion signed with X's key *)
 Inductive atype := TJWT | TNone | TWrong.   (* client_assertion_type: the jwt-bearer urn / absent / something else *)
-Inductive assk := AOk | AWrongKey | AWrongAud.
+Inductive assk := AOk | AWrongKey | AWrongAud
+                | AJunk.   (* not a JWT at all *)
 
 (* the registration of a second client Y: auth method; registered for every grant or for none *)
 Record victim := mkV { v_meth : amethod; v_grants : bool }.
@@ -53,6 +59,7 @@ Inductive pres :=
 | PBasicBadEsc                   (* Basic with a malformed percent escape (%zz) *)
 | PPost (s : seck)               (* client_id + client_secret in the form *)
 | PAssert (a : assk)             (* client_assertion + client_assertion_type *)
+| PAssertId (a : assk)           (* client_id=X + client_assertion + client_assertion_type *)
 | PAssertTypeOnly                (* client_id + client_assertion_type, no client_assertion *)
 | PAssertNoType                  (* valid client_assertion without client_assertion_type *)
 | PAssertWrongType               (* valid client_assertion with another client_assertion_type *)
@@ -75,7 +82,12 @@ Inductive pres :=
 | PNearId (sl : idslot) (s : seck).
 
 Record cfg := mkCfg { f_post : bool; f_pkjwt : bool; f_refresh : bool;   (* op.Config flags *)
-                      c_cc : bool; c_te : bool; c_dev : bool }.          (* optional storage capabilities *)
+                      c_cc : bool; c_te : bool; c_dev : bool;            (* optional storage capabilities *)
+                      c_jp : bool }.   (* the provider object handed to NewLegacyServer has the optional method
+                                          JWTProfileVerifier (interfaces ClientJWTProfile / JWTAuthorizationGrantExchanger,
+                                          which the LegacyServer type-asserts); *op.Provider has it, a wrapper that embeds
+                                          the OpenIDProvider interface does not.  The Provider's own router is built by
+                                          the provider itself and always has it. *)
 
 Record reg := mkReg { r_known : bool;          (* the client id is registered at all *)
                       r_meth : amethod; r_app : apptype;
@@ -121,7 +133,7 @@ Definition grant_eqb (a b : grant) : bool :=
 (* ---------------- C05_Storage: the part of the refstore contract (DESIGN 4.5) the guards rely on *)
 
 Definition has_secret (m : amethod) : bool :=
-  match m with MBasic | MPost => true | _ => false end.
+  match m with MBasic | MPost | MOther => true | _ => false end.
 
 (* Storage.AuthorizeClientIDSecret compares the presented with the stored secret; a client
    registered none / private_key_jwt has the empty string stored, so the EMPTY secret matches it
@@ -221,15 +233,15 @@ Definition basic_of (p : pres) : option (option seck) :=
   | _ => None
   end.
 Definition form_id (p : pres) : bool :=
-  match p with PIdOnly | PPost _ | PBoth _ _ | PAssertTypeOnly => true | _ => false end.
+  match p with PIdOnly | PPost _ | PBoth _ _ | PAssertTypeOnly | PAssertId _ => true | _ => false end.
 (* an empty client_secret decodes like an absent one *)
 Definition nonempty (s : seck) : option seck := match s with SEmpty => None | _ => Some s end.
 Definition form_secret (p : pres) : option seck :=
   match p with PPost s => nonempty s | PBoth _ s => nonempty s | _ => None end.
 Definition assertion_of (p : pres) : option assk :=
-  match p with PAssert a => Some a | PAssertNoType | PAssertWrongType => Some AOk | _ => None end.
+  match p with PAssert a | PAssertId a => Some a | PAssertNoType | PAssertWrongType => Some AOk | _ => None end.
 Definition atype_of (p : pres) : atype :=
-  match p with PAssert _ | PAssertTypeOnly => TJWT | PAssertWrongType => TWrong | _ => TNone end.
+  match p with PAssert _ | PAssertId _ | PAssertTypeOnly => TJWT | PAssertWrongType => TWrong | _ => TNone end.
 Definition is_jwt (t : atype) : bool := match t with TJWT => true | _ => false end.
 (* VerifyJWTAssertion of the client_assertion field, which may be empty *)
 Definition assertion_opt_ok (rg : reg) (o : option assk) : bool :=
@@ -271,7 +283,7 @@ Definition by_secret (c : cfg) (rg : reg) (sec : option seck) (k : result) : res
   | MNone => k
   | MPost => if negb (f_post c) then r4 EInvalidClient
              else if secret_check rg sec then k else r4 EInvalidClient
-  | MBasic => if secret_check rg sec then k else r4 EInvalidClient
+  | MBasic | MOther => if secret_check rg sec then k else r4 EInvalidClient
   end.
 
 (* ---------------- Provider router (op.NewProvider(...).Handler) *)
@@ -348,7 +360,7 @@ Definition device_client_authenticated (c : cfg) (rg : reg) (au ba : bool) : boo
   | MNone => true
   | MPKJWT => au && ba && f_pkjwt c
   | MPost => au && negb ba && f_post c
-  | MBasic => au && negb ba
+  | MBasic | MOther => au && negb ba   (* the switch's default branch *)
   end.
 
 (* no ValidateGrantType here: recorded finding Fxx-C05-4 *)
@@ -434,7 +446,7 @@ Definition l_verify_client (c : cfg) (rg : reg) (is_cc : bool)
     else if is_post (r_meth rg) && negb (f_post c) then r4 EInvalidClient
     else k
   else if is_jwt ty then   (* r.Data.ClientAssertionType == jwt-bearer *)
-    if negb (f_pkjwt c) then r4 EInvalidClient
+    if negb (c_jp c && f_pkjwt c) then r4 EInvalidClient   (* provider.(JWTAuthorizationGrantExchanger) *)
     else private_jwt rg ass (r5 EServerError) k
   else if negb (id && r_known rg) then r4 EInvalidClient
   else by_secret c rg sec k.
@@ -458,7 +470,8 @@ Definition l_token (c : cfg) (rg : reg) (p : pres) (pl : placement) (g : grant) 
                    else if own then Granted else r4 EInvalidGrant)
   | GCC => l_with_client c rg p gp g
                   (if is_none (r_meth rg) then r4 EInvalidClient else Granted)
-  | GBearer => if bearer_ok rg then Granted else r4 EInvalidRequest
+  | GBearer => if negb (c_jp c) then r4 EUnsupportedGrantType   (* provider.(JWTAuthorizationGrantExchanger) *)
+               else if bearer_ok rg then Granted else r4 EInvalidRequest
   | GTE => l_with_client c rg p gp g
                   (if is_none (r_meth rg) then r4 EInvalidClient
                    else if c_te c then Granted else r4 EUnsupportedGrantType)
@@ -469,11 +482,13 @@ Definition l_token (c : cfg) (rg : reg) (p : pres) (pl : placement) (g : grant) 
   | GImplicit | GUnknown => r4 EUnsupportedGrantType
   end.
 
-Definition l_introspect (rg : reg) (p : pres) (own : bool) : result :=
+Definition l_introspect (c : cfg) (rg : reg) (p : pres) (own : bool) : result :=
   let ok := if own then Granted else Inactive in
   l_parse p (fun id sec ass ty =>
     match ass with
-    | Some a => if assertion_ok rg a then ok else r4 EUnauthorizedClient
+    | Some a => if negb (c_jp c) then r4 EInvalidClient   (* provider.(ClientJWTProfile): an assertion is never
+                                                              passed on to the secret check *)
+                else if assertion_ok rg a then ok else r4 EUnauthorizedClient
     | None => match sec with
               | None => r4 EInvalidClient   (* cc.ClientSecret == "" && cc.ClientAssertion == "" *)
               | Some s => (* authenticateResourceClient asks the storage directly *)
@@ -502,7 +517,7 @@ Definition authenticate (r : router) (e : endpoint) (c : cfg) (rg : reg) (p0 : p
   | RProvider, ERevoke => p_revoke c rg p own
   | RProvider, EDeviceAuthz => p_device_authz c rg p
   | RLegacy, EToken => l_token c rg p pl g own
-  | RLegacy, EIntrospect => l_introspect rg p own
+  | RLegacy, EIntrospect => l_introspect c rg p own
   | RLegacy, ERevoke => l_revoke c rg p own
   | RLegacy, EDeviceAuthz => l_device_authz c rg p
   end.
